@@ -200,21 +200,9 @@ def rule_declared(cx, rid="C14-DECLARED"):
 
 def rule_names(cx, em, pm, im, crl, fields):
     # ---- C14-NAMES ---------------------------------------------------------------------------
-    r = cx.rule("C14-NAMES", "library name = header stem = class name for each of the three libraries; the interface literals used by parser, emitter and the library collector are the same two", floor=5)
-    ef = em.func("emit")
-    inc_parts = [n_.value for n_ in ast.walk(ef) if isinstance(n_, ast.Constant) and isinstance(n_.value, str) and n_.value.startswith("#include <")]
-    stems = set()
-    for p in inc_parts:
-        stems |= set(re.findall(r"#include <(\w+)\.h>", p))
-    stems.discard("Wire")
-    r.check(stems == set(LIBS), "emit/header-stems", (em, ef), f"headers included by the emitter: {sorted(stems)}; libraries: {sorted(LIBS)}")
-    lit_libs = {n_.value for n_ in ast.walk(crl) if isinstance(n_, ast.Constant) and isinstance(n_.value, str) and n_.value in LIBS + ("Servo.h",)}
-    allstr = {n_.value for n_ in ast.walk(im.tree) if isinstance(n_, ast.Constant) and isinstance(n_.value, str)}
-    r.check(set(LIBS) <= allstr, "collect/library-names", (im, crl), f"library names known to the collector: {sorted(allstr & set(LIBS))}")
-    ifaces_parser = {n_.value for n_ in ast.walk(pm.tree) if isinstance(n_, ast.Constant) and n_.value in ("parallel", "i2c")}
-    r.check(ifaces_parser == {"parallel", "i2c"}, "parser/LCD-interface-literals", (pm, pm.func("_parse_simple_lines")), f"the parser spells the interfaces {sorted(map(str, ifaces_parser))}")
-    ifaces_init = {n_.value for n_ in ast.walk(im.tree) if isinstance(n_, ast.Constant) and n_.value in ("parallel", "i2c")}
-    r.check(bool(ifaces_init), "collect/LCD-interface-literals", (im, crl), f"collector distinguishes {sorted(ifaces_init)}: it must tell the two LCD interfaces apart by the parser's literals")
+    r = cx.rule("C14-NAMES", "an LCD declaration is parallel unless told otherwise (IR default)", floor=1)
+    # (which header / library / class a device gets is decided by evaluation in C14-AGREE and C14-DECLARED - wherever the
+    # emitter and the collector keep their strings)
     default_iface = [d for f_, _a, d in fields["LCDDecl"] if f_ == "interface"]
     r.check(default_iface and default_iface[0][1] == "parallel", "ast/LCDDecl.interface-default", (mod("transpile/ast.py").rel, 1), f"default interface {default_iface}")
     # (that an LCD is an I2C LCD iff i2c_addr is given is decided on declaration shapes through parse(): C14-DECLARED)
